@@ -83,6 +83,31 @@ CHECKS = {
         "Trusted: M4; real save/load as the freshness reference. Depth- and alphabet-bounded.",
         "DESIGN.md 4 C13",
     ),
+    "C09": (
+        "model_checking",
+        "exhaustive enumeration of counter pairs through the real merge kernels: all 256x256 log8 "
+        "pairs x 20 configurations, log16 bands / all 2^32 pairs, linear boundary pairs, against the "
+        "nearest-decoded-value rule",
+        "Tables are written directly so that one real merge() evaluates a whole block of (a,b) counter "
+        "pairs; every cell is compared with the rule stated in the property (exact sum in the reserved "
+        "range, maximum counter at max_count, nearest decoded value otherwise, ties accept either "
+        "neighbour), with decode() read off the real sketch. Also b unchanged, bookkeeping summed, "
+        "commutativity, identity, monotonicity, linear super-additivity. log8 is complete for 20 "
+        "configurations; log16 is complete (2^32 pairs, default configuration) in the thorough tier.",
+        "decode() table read through query() on a one-cell sketch; tie window 1e-9; the solver's 1e-6 "
+        "tolerance is granted just below max_count.",
+        "DESIGN.md 4 C09",
+    ),
+    "C15": (
+        "model_checking",
+        "exhaustive enumeration of all ordered pairs of a configuration grid (single-parameter "
+        "variants per family, in-memory and shared-memory operands) through the real merge()",
+        "Every ordered pair of configurations within each family, both operands non-empty: an "
+        "incompatible pair must raise TypeError and leave the full captured state of both operands "
+        "unchanged; a compatible pair (incl. heavy hitters differing only in phi) must merge.",
+        "Compatibility is decided from the constructor arguments exactly as the property lists them.",
+        "DESIGN.md 4 C15",
+    ),
     "C10": (
         "model_checking",
         "exhaustive exploration of a history graph per class x configuration; every state is saved and "
